@@ -383,14 +383,101 @@ def _nonzero_exit(out):
     if out[0] != 'noreturn':
         return False
     fn, args = out[1], out[2]
-    if fn in L.ERROR_FNS or fn in ('abort', '__assert_fail'):
-        return True
+    if fn in L.ERROR_FNS or fn in ('abort', '__assert_fail', '__builtin_trap') or fn in L.SELF_SIGNAL_FNS:
+        return True     # (a process that dies by a signal is reported to its parent as failed)
     if fn in ('exit', '_exit', '_Exit', 'quick_exit'):
         return bool(args) and isinstance(args[0], int) and not isinstance(args[0], bool) and (args[0] & 0xff) != 0
     return False
 
 
 # ============================================================ R14.3 / R14.4 ===
+def _parent_end_key(out):
+    if out[1] in L.EXEC_FNS:
+        return 'parent-execs'
+    if out[1] in L.SELF_SIGNAL_FNS:
+        return 'parent-kills-itself-with-%s' % out[1]
+    return 'parent-calls-%s' % out[1]
+
+
+def _parent_end_msg(st, out):
+    if out[1] in L.EXEC_FNS:
+        return 'the driver itself is replaced by %s: cleanup never runs' % out[1]
+    if out[1] in L.SELF_SIGNAL_FNS:
+        return ('the driver (not the forked child) sends itself signal %s through %s() while the disposition of that signal is the default action: the process is terminated by the signal, '
+                'atexit handlers do not run, every registered temporary file is left behind' % (st.get('killed_by', '?'), out[1]))
+    return 'the driver (parent side of fork) terminates through %s(): atexit handlers do not run, every registered temporary file is left behind' % out[1]
+
+
+def _static_sig(e):
+    """signal number of an argument expression when it is a constant, else None"""
+    if e is None:
+        return None
+    try:
+        v = e.strip_all().int_value()
+    except Exception:
+        v = None
+    return v if isinstance(v, int) and not isinstance(v, bool) else None
+
+
+def _static_handler(e):
+    """'dfl' / 'ign' / ('fn', name) / 'unknown' for a handler argument expression"""
+    if e is None:
+        return 'unknown'
+    b = e.strip_all()
+    if b.kind == 'DeclRefExpr' and b.ref_kind == 'FunctionDecl':
+        return ('fn', b.ref_name)
+    if b.kind == 'UnaryOperator' and b.opcode == '&' and b.inner:
+        c = b.inner[0].strip_all()
+        if c.kind == 'DeclRefExpr' and c.ref_kind == 'FunctionDecl':
+            return ('fn', c.ref_name)
+    v = _static_sig(e)
+    if v == 0:
+        return 'dfl'
+    if v == 1:
+        return 'ign'
+    return 'unknown'
+
+
+def _signal_installs(rep, cg, reach_main):
+    """every reachable call that sets a signal disposition: (unit, caller, call, constant signal or None, handler kind).
+    Decides on the way: SIGCHLD is never set to `ignore` (the kernel then reaps children itself and wait() delivers no status)."""
+    out = []
+    for name, (sidx, hidx) in sorted(L.SIGNAL_SET_FNS.items()):
+        for (cu, caller, call) in cg.sites.get(name, ()):
+            if caller not in reach_main:
+                continue
+            a = call.args()
+            sig = _static_sig(a[sidx]) if len(a) > sidx else None
+            h = _static_handler(a[hidx]) if len(a) > hidx else 'unknown'
+            out.append((cu, caller, call, sig, h))
+            if h == 'ign' and sig == L.SIGCHLD:
+                rep.ob('R14.4', '%s:%s:ignores-SIGCHLD' % (cu.name, caller), False,
+                       '%s(SIGCHLD, SIG_IGN) in %s (%s): terminated children are then discarded by the kernel, wait() returns -1 (ECHILD) without a status and the failure of a pipeline stage is never seen'
+                       % (name, caller, cg.witness(caller)), where=_where(call, cu.name))
+            elif h in ('ign', 'unknown') and sig is None:
+                rep.undecided('R14.4', '%s:%s:%s-of-computed-signal' % (cu.name, caller, name),
+                              '%s() sets the disposition of a signal that is not a constant to %s: cannot tell whether SIGCHLD stays deliverable' % (name, 'ignore' if h == 'ign' else 'a computed handler'),
+                              where=_where(call, cu.name))
+    for name in L.SIGACTION_FNS:
+        for (cu, caller, call) in cg.sites.get(name, ()):
+            if caller not in reach_main:
+                continue
+            a = call.args()
+            sig = _static_sig(a[0]) if a else None
+            if len(a) > 1 and _static_sig(a[1]) == 0:
+                continue        # sigaction(sig, NULL, &old): query
+            out.append((cu, caller, call, sig, 'unknown'))
+            if sig is None or sig == L.SIGCHLD:
+                rep.undecided('R14.4', '%s:%s:%s-of-SIGCHLD' % (cu.name, caller, name),
+                              '%s() may change the disposition of SIGCHLD (SIG_IGN / SA_NOCLDWAIT make wait() deliver no status): flags and handler of the structure are not interpreted' % name,
+                              where=_where(call, cu.name))
+    for name in L.DISPOSITION_UNMODELLED:
+        for (cu, caller, call) in cg.sites.get(name, ()):
+            if caller in reach_main:
+                out.append((cu, caller, call, None, 'unknown'))
+    return out
+
+
 def r143_r144(P, u, rep, cg, reach_main, facts):
     rep.rule('R14.3', 'outside the forked child the process ends only through exit()/return from main (atexit handlers run); inside the child only through exec* or _exit (the child never runs the parent\'s handlers, never continues the driver)', floor=3)
     rep.rule('R14.4', 'on every path from process creation (fork, posix_spawn*, system) to the return the wait status is read, every non-zero status (exit code or signal) ends the driver with a non-zero status, '
@@ -414,6 +501,11 @@ def r143_r144(P, u, rep, cg, reach_main, facts):
         for (cu, caller, call) in cg.sites.get(name, ()):
             if caller in reach_main:
                 rep.undecided('R14.4', '%s:%s:%s' % (cu.name, caller, name), '%s() is not modelled' % name, where=_where(call, cu.name))
+    installs = _signal_installs(rep, cg, reach_main)
+    facts['signal_installs'] = installs
+
+    def sig_may_install(sig, done=()):
+        return any((s is None or s == sig) and (cu_.name, call.line) not in done for (cu_, caller, call, s, h) in installs if h != 'dfl')
     entered_roles = {}   # function -> set of roles in which it was entered while exploring fork functions
     explored_sites = {}  # (unit, line of hard exit call) -> set of roles
     for fn, cu in sorted(fork_fns.items()):
@@ -422,6 +514,7 @@ def r143_r144(P, u, rep, cg, reach_main, facts):
                    'a process is created (%s) outside main.c (%s)' % (kind, cg.witness(fn)), where=_where(cu.fn(fn), cu.name))
         try:
             it = L.make_interp(P, cu, loop_limit=1)
+            it.sig_may_install = sig_may_install
             paths = it.explore(fn, lambda ctx: [])
         except AnalysisBroken as e:
             rep.undecided('R14.3', '%s:%s:interpretation' % (cu.name, fn), str(e))
@@ -446,16 +539,30 @@ def r143_r144(P, u, rep, cg, reach_main, facts):
                 entered_roles.setdefault(f, set()).add(r)
             if out[0] == 'noreturn' and out[1] in L.HARD_EXIT:
                 explored_sites.setdefault((cu.name, out[3]), set()).add(role)
+            trail = {'path': _fmt_path(ctx)}
+            for (sname, sline, why) in st.get('sig_undecided', ()):
+                rep.undecided('R14.3', '%s:%s:%s-effect' % (cu.name, fn, sname), '%s() is called on a path of %s and its effect cannot be decided: %s' % (sname, fn, why),
+                              where='%s:%d' % (cu.name, sline))
+            if st.get('child_signals_driver'):
+                sname, sig, sline = st['child_signals_driver']
+                rep.ob('R14.3', '%s:%s:child-signals-driver-with-%s' % (cu.name, fn, sname), False,
+                       'the forked child sends signal %d to the driver (%s): the default action terminates the driver without running its atexit handlers, every registered temporary file is left behind' % (sig, sname),
+                       where='%s:%d' % (cu.name, sline), facts=trail)
             if role == 'no-fork':
+                # a path that ends before any process was created is still the driver
+                if out[0] == 'noreturn' and (out[1] in L.HARD_EXIT or out[1] in L.SELF_SIGNAL_FNS or out[1] in L.EXEC_FNS):
+                    rep.ob('R14.3', '%s:%s:%s' % (cu.name, fn, _parent_end_key(out)), False, _parent_end_msg(st, out), where='%s:%d' % (cu.name, out[3]), facts=trail)
                 continue
             seen[role] = seen.get(role, 0) + 1
-            trail = {'path': _fmt_path(ctx)}
             # ---- R14.3
             if role == 'child':
                 if out[0] == 'ret':
                     rep.ob('R14.3', '%s:%s:child-returns' % (cu.name, fn), False,
                            'the forked child can leave the fork()==0 region and return into the driver: it would run the rest of the pipeline and the atexit cleanup a second time',
                            where=w, facts=trail)
+                elif out[1] in L.SELF_SIGNAL_FNS:
+                    # the child kills itself: like _exit, no handler of the parent runs in it; the parent sees a signal status (R14.4)
+                    rep.ob('R14.3', '%s:%s:child-ends-by-signal-to-itself' % (cu.name, fn), True, '', where=w)
                 elif out[1] in L.EXEC_FNS or out[1] in ('_exit', '_Exit'):
                     rep.ob('R14.3', '%s:%s:child-ends-by-exec-or-_exit' % (cu.name, fn), True, '', where=w)
                     if out[1] in ('_exit', '_Exit'):
@@ -466,13 +573,9 @@ def r143_r144(P, u, rep, cg, reach_main, facts):
                            'the forked child terminates through %s(): the atexit handler runs in the child and unlinks the temporary files the parent still needs (and stdio buffers are flushed twice)' % out[1],
                            where='%s:%d' % (cu.name, out[3]), facts=trail)
             else:
-                if out[0] == 'noreturn' and out[1] in L.HARD_EXIT:
-                    rep.ob('R14.3', '%s:%s:parent-calls-%s' % (cu.name, fn, out[1]), False,
-                           'the driver (parent side of fork) terminates through %s(): atexit handlers do not run, every registered temporary file is left behind' % out[1],
+                if out[0] == 'noreturn' and (out[1] in L.HARD_EXIT or out[1] in L.SELF_SIGNAL_FNS or out[1] in L.EXEC_FNS):
+                    rep.ob('R14.3', '%s:%s:%s' % (cu.name, fn, _parent_end_key(out)), False, _parent_end_msg(st, out),
                            where='%s:%d' % (cu.name, out[3]), facts=trail)
-                elif out[0] == 'noreturn' and out[1] in L.EXEC_FNS:
-                    rep.ob('R14.3', '%s:%s:parent-execs' % (cu.name, fn), False,
-                           'the driver itself is replaced by %s: cleanup never runs' % out[1], where='%s:%d' % (cu.name, out[3]), facts=trail)
                 else:
                     rep.ob('R14.3', '%s:%s:parent-ends-by-exit-or-return' % (cu.name, fn), True, '', where=w)
             # ---- R14.4
@@ -537,15 +640,66 @@ def r143_r144(P, u, rep, cg, reach_main, facts):
             if n == 0:
                 rep.undecided('R14.3', '%s:%s:no-%s-path' % (cu.name, fn, role), 'no explored path with process-creation outcome `%s`' % role)
     # ---- whole program: hard exits reachable from main that the exploration did not see on child-only paths
+    def is_child_only(caller):
+        roles = entered_roles.get(caller)
+        static_callers = set(c for (_, c, _) in cg.sites.get(caller, ())) | set(c for (_, c, _) in cg.refs.get(caller, ()))
+        return bool(roles == {'child'} and static_callers and all(c in fork_fns or entered_roles.get(c) == {'child'} for c in static_callers))
+    # the driver replaced by another program (exec outside the forked child), or terminated by a signal it sends itself
+    n_other = 0
+    for name in L.EXEC_FNS:
+        for (cu, caller, call) in cg.sites.get(name, ()):
+            if caller not in reach_main or caller in fork_fns:
+                continue
+            n_other += 1
+            child_only = is_child_only(caller)
+            rep.ob('R14.3', '%s:%s:%s' % (cu.name, caller, ('child-helper-execs-with-%s' if child_only else 'execs-with-%s') % name), child_only,
+                   '%s() is called in %s, which runs in the driver/cc1 process outside the forked child (%s): the process image is replaced, atexit handlers never run, registered temporary files are left behind'
+                   % (name, caller, cg.witness(caller)), where=_where(call, cu.name))
+    for name, (tidx, sidx) in sorted(L.SELF_SIGNAL_FNS.items()):
+        for (cu, caller, call) in cg.sites.get(name, ()):
+            if caller not in reach_main or caller in fork_fns:
+                continue
+            n_other += 1
+            a = call.args()
+            key = '%s:%s:' % (cu.name, caller)
+            wh = _where(call, cu.name)
+            if is_child_only(caller):
+                rep.ob('R14.3', key + 'child-helper-calls-%s' % name, True, '', where=wh)
+                continue
+            # receiver: the calling process itself / its process group, or some other process
+            if tidx is None:
+                target = 'self'
+            else:
+                t = a[tidx].strip_all() if len(a) > tidx else None
+                tv = _static_sig(a[tidx]) if len(a) > tidx else None
+                if t is not None and t.kind == 'CallExpr' and t.callee() in ('getpid', 'getpgrp'):
+                    target = 'self'
+                elif tv in (0, -1):
+                    target = 'self'
+                else:
+                    target = None
+            if target is None:
+                rep.undecided('R14.3', key + '%s-target' % name, '%s() in %s (%s): cannot tell statically whether the receiving process is the driver itself' % (name, caller, cg.witness(caller)), where=wh)
+                continue
+            sig = _static_sig(a[sidx]) if len(a) > sidx else None
+            if sig is not None and (sig == 0 or (sig in L.SIG_DEFAULT_HARMLESS and not sig_may_install(sig))):
+                rep.ob('R14.3', key + '%s-of-non-terminating-signal' % name, True, '', where=wh)
+                continue
+            if sig is None and installs or sig is not None and sig not in L.SIG_UNBLOCKABLE and sig_may_install(sig):
+                rep.undecided('R14.3', key + '%s-effect' % name, '%s() in %s sends the process a signal whose disposition may have been changed elsewhere in the program: effect not decided' % (name, caller), where=wh)
+                continue
+            rep.ob('R14.3', key + 'kills-itself-with-%s' % name, False,
+                   '%s sends its own process %s through %s() (%s) and no reachable code changes the default disposition: the default action of all but the job-control/SIGCHLD/SIGURG/SIGWINCH signals terminates the process, '
+                   'atexit handlers do not run, registered temporary files are left behind'
+                   % (caller, 'signal %d' % sig if sig is not None else 'a computed signal', name, cg.witness(caller)), where=wh)
+    rep.ob('R14.3', '%s:driver:termination-calls-outside-launchers-classified' % U, True, '', where=None, facts={'exec-or-signal sites outside the launcher functions': n_other})
     for name in L.HARD_EXIT:
         for (cu, caller, call) in cg.sites.get(name, ()):
             if caller not in reach_main:
                 continue
             if caller in fork_fns:
                 continue    # decided per path above
-            roles = entered_roles.get(caller)
-            static_callers = set(c for (_, c, _) in cg.sites.get(caller, ())) | set(c for (_, c, _) in cg.refs.get(caller, ()))
-            child_only = roles == {'child'} and static_callers and all(c in fork_fns or entered_roles.get(c) == {'child'} for c in static_callers)
+            child_only = is_child_only(caller)
             rep.ob('R14.3', '%s:%s:%s' % (cu.name, caller, ('child-helper-calls-%s' if child_only else 'calls-%s') % name), bool(child_only),
                    '%s() is called in %s, which runs in the driver/cc1 process outside the forked child (%s): atexit handlers do not run, registered temporary files are left behind'
                    % (name, caller, cg.witness(caller)), where=_where(call, cu.name))
